@@ -51,43 +51,47 @@ Lemma aliased_one h o :
   hd None (aliased [(h, o)]) = match h with Some _ => if opt_eqb h o then h else None | None => None end.
 Proof. reflexivity. Qed.
 
-Lemma adopt_cpp h o L :
-  adopt BCpp h o L = if opt_eqb h o then (h, L) else (o, bump_opt h (-1) L).
+Lemma adopt_cpp leaky h o L :
+  adopt_gen leaky BCpp h o L = if leaky && opt_eqb h o then (h, L) else (o, bump_opt h (-1) L).
 Proof. reflexivity. Qed.
 
-(* what a C++ stub's consume does over all output positions *)
-Lemma adopt_all_cpp po : forall L,
-  fst (adopt_all BCpp po L) = map snd po /\
-  forall y, snd (adopt_all BCpp po L) y = L y - mult y (map fst po) + mult y (aliased po).
+(* what a C++ stub's consume does over all output positions, for a consume that leaks the
+   duplicate (leaky = true) and for one that does not *)
+Lemma adopt_all_cpp leaky po : forall L,
+  fst (adopt_all_gen leaky BCpp po L) = map snd po /\
+  forall y, snd (adopt_all_gen leaky BCpp po L) y = L y - mult y (map fst po) + mult y (leaked leaky po).
 Proof.
-  induction po as [|[h o] po IH]; intro L; cbn [adopt_all map fst snd].
-  - split; [reflexivity|]. intro y. cbn [aliased map mult]. lia.
-  - rewrite adopt_cpp. destruct (opt_eqb h o) eqn:E.
-    + pose proof (opt_eqb_eq _ _ E) as ->.
-      specialize (IH L). destruct (adopt_all BCpp po L) as [hs L2]. cbn [fst snd] in *.
+  induction po as [|[h o] po IH]; intro L; cbn [adopt_all_gen map fst snd].
+  - split; [reflexivity|]. intro y. unfold leaked. destruct leaky; cbn [aliased map mult]; lia.
+  - rewrite adopt_cpp. destruct (leaky && opt_eqb h o) eqn:E.
+    + apply andb_prop in E. destruct E as [El E]. subst leaky.
+      pose proof (opt_eqb_eq _ _ E) as ->.
+      specialize (IH L). destruct (adopt_all_gen true BCpp po L) as [hs L2]. cbn [fst snd] in *.
       destruct IH as [IH1 IH2]. split; [now rewrite IH1|].
       intro y. rewrite IH2. rewrite (mult_cons y o (map fst po)).
-      rewrite (aliased_cons (o, o) po), aliased_one.
+      unfold leaked. rewrite (aliased_cons (o, o) po), aliased_one.
       destruct o as [x|].
       * rewrite E. rewrite (mult_cons y (Some x) (aliased po)). lia.
       * rewrite (mult_cons y None (aliased po)). cbn [mult]. lia.
-    + specialize (IH (bump_opt h (-1) L)). destruct (adopt_all BCpp po (bump_opt h (-1) L)) as [hs L2].
+    + specialize (IH (bump_opt h (-1) L)). destruct (adopt_all_gen leaky BCpp po (bump_opt h (-1) L)) as [hs L2].
       cbn [fst snd] in *. destruct IH as [IH1 IH2]. split; [now rewrite IH1|].
       intro y. rewrite IH2, bump_opt_at. rewrite (mult_cons y h (map fst po)).
-      rewrite (aliased_cons (h, o) po), aliased_one, E.
-      assert (A : mult y ((match h with Some _ => None | None => None end) :: aliased po) = mult y (aliased po))
-        by (destruct h; reflexivity).
-      rewrite A. lia.
+      unfold leaked. destruct leaky.
+      * cbn [andb] in E. rewrite (aliased_cons (h, o) po), aliased_one, E.
+        assert (A : mult y ((match h with Some _ => None | None => None end) :: aliased po) = mult y (aliased po))
+          by (destruct h; reflexivity).
+        rewrite A. lia.
+      * cbn [mult]. lia.
 Qed.
 
 (* C and Rust stubs: a plain store / a returned value *)
-Lemma adopt_all_plain b po : b <> BCpp -> forall L,
-  fst (adopt_all b po L) = map snd po /\ snd (adopt_all b po L) = L.
+Lemma adopt_all_plain leaky b po : b <> BCpp -> forall L,
+  fst (adopt_all_gen leaky b po L) = map snd po /\ snd (adopt_all_gen leaky b po L) = L.
 Proof.
-  intro Hb. induction po as [|[h o] po IH]; intro L; cbn [adopt_all map snd].
+  intro Hb. induction po as [|[h o] po IH]; intro L; cbn [adopt_all_gen map snd].
   - split; reflexivity.
-  - assert (A : adopt b h o L = (o, L)) by (destruct b; [reflexivity | congruence | reflexivity]).
-    rewrite A. specialize (IH L). destruct (adopt_all b po L) as [hs L2]. cbn [fst snd] in *.
+  - assert (A : adopt_gen leaky b h o L = (o, L)) by (destruct b; [reflexivity | congruence | reflexivity]).
+    rewrite A. specialize (IH L). destruct (adopt_all_gen leaky b po L) as [hs L2]. cbn [fst snd] in *.
     destruct IH as [IH1 IH2]. split; [now rewrite IH1 | exact IH2].
 Qed.
 
@@ -98,18 +102,21 @@ Proof.
   destruct h; [discriminate|]. cbn. now apply IH.
 Qed.
 
-Lemma adopt_all_any b s : holders_only_cpp b s = true -> forall L,
-  fst (adopt_all b (sc_outs s) L) = out_of s /\
-  forall y, snd (adopt_all b (sc_outs s) L) y = L y - mult y (pre_of s) + mult y (aliased (sc_outs s)).
+Lemma leaked_none leaky po : forallb is_none (map fst po) = true -> forallb is_none (leaked leaky po) = true.
+Proof. intro H. unfold leaked. destruct leaky; [now apply aliased_none | reflexivity]. Qed.
+
+Lemma adopt_all_any leaky b s : holders_only_cpp b s = true -> forall L,
+  fst (adopt_all_gen leaky b (sc_outs s) L) = out_of s /\
+  forall y, snd (adopt_all_gen leaky b (sc_outs s) L) y = L y - mult y (pre_of s) + mult y (leaked leaky (sc_outs s)).
 Proof.
   intros H L. destruct b.
-  - cbn [holders_only_cpp] in H. destruct (adopt_all_plain BC (sc_outs s) ltac:(discriminate) L) as [A B].
+  - cbn [holders_only_cpp] in H. destruct (adopt_all_plain leaky BC (sc_outs s) ltac:(discriminate) L) as [A B].
     split; [exact A|]. intro y. rewrite B.
-    rewrite (mult_all_none y _ H), (mult_all_none y _ (aliased_none _ H)). lia.
-  - exact (adopt_all_cpp (sc_outs s) L).
-  - cbn [holders_only_cpp] in H. destruct (adopt_all_plain BRust (sc_outs s) ltac:(discriminate) L) as [A B].
+    rewrite (mult_all_none y _ H), (mult_all_none y _ (leaked_none leaky _ H)). lia.
+  - exact (adopt_all_cpp leaky (sc_outs s) L).
+  - cbn [holders_only_cpp] in H. destruct (adopt_all_plain leaky BRust (sc_outs s) ltac:(discriminate) L) as [A B].
     split; [exact A|]. intro y. rewrite B.
-    rewrite (mult_all_none y _ H), (mult_all_none y _ (aliased_none _ H)). lia.
+    rewrite (mult_all_none y _ H), (mult_all_none y _ (leaked_none leaky _ H)). lia.
 Qed.
 
 Lemma in_neutral b1 b2 : stub_in b1 + skel_in b2 = 0.
@@ -118,45 +125,45 @@ Lemma out_neutral b2 : skel_out b2 = 0.
 Proof. destruct b2; reflexivity. Qed.
 
 (* the caller's holders after a successful call own exactly what the implementation handed over *)
-Theorem holders_after_success b1 b2 s L0 :
-  holders_only_cpp b1 s = true -> sc_ok s = true -> fst (after_call b1 b2 s L0) = out_of s.
+Theorem holders_after_success_gen leaky b1 b2 s L0 :
+  holders_only_cpp b1 s = true -> sc_ok s = true -> fst (after_call_gen leaky b1 b2 s L0) = out_of s.
 Proof.
-  intros H Hok. unfold after_call. rewrite Hok. now apply adopt_all_any.
+  intros H Hok. unfold after_call_gen. rewrite Hok. now apply adopt_all_any.
 Qed.
 
 (* every count when the call has returned *)
-Theorem counts_after_call b1 b2 s L0 y :
+Theorem counts_after_call_gen leaky b1 b2 s L0 y :
   holders_only_cpp b1 s = true ->
-  snd (after_call b1 b2 s L0) y =
+  snd (after_call_gen leaky b1 b2 s L0) y =
     L0 y + mult y (sc_ins s) +
-    (if sc_ok s then mult y (out_of s) + mult y (aliased (sc_outs s)) else mult y (pre_of s)).
+    (if sc_ok s then mult y (out_of s) + mult y (leaked leaky (sc_outs s)) else mult y (pre_of s)).
 Proof.
-  intro H. unfold after_call. rewrite (in_neutral b1 b2), (out_neutral b2).
+  intro H. unfold after_call_gen. rewrite (in_neutral b1 b2), (out_neutral b2).
   destruct (sc_ok s).
-  - destruct (adopt_all_any b1 s H
+  - destruct (adopt_all_any leaky b1 s H
       (bump_all (out_of s) (1 + 0) (bump_all (sc_ins s) 0 (bump_all (pre_of s) 1 (bump_all (sc_ins s) 1 L0))))) as [_ B].
     rewrite B, !bump_all_at. lia.
   - cbn [snd]. rewrite !bump_all_at. lia.
 Qed.
 
 (* a failed call adopts nothing *)
-Theorem failed_call_adopts_nothing b1 b2 s L0 :
-  sc_ok s = false -> fst (after_call b1 b2 s L0) = pre_of s.
-Proof. intro H. unfold after_call. now rewrite H. Qed.
+Theorem failed_call_adopts_nothing_gen leaky b1 b2 s L0 :
+  sc_ok s = false -> fst (after_call_gen leaky b1 b2 s L0) = pre_of s.
+Proof. intro H. unfold after_call_gen. now rewrite H. Qed.
 
 (* the ledger once the caller has dropped everything it holds *)
-Theorem ledger_after_drop b1 b2 s L0 y :
+Theorem ledger_after_drop_gen leaky b1 b2 s L0 y :
   holders_only_cpp b1 s = true ->
-  after_drop b1 b2 s L0 y = L0 y + (if sc_ok s then mult y (aliased (sc_outs s)) else 0).
+  after_drop_gen leaky b1 b2 s L0 y = L0 y + (if sc_ok s then mult y (leaked leaky (sc_outs s)) else 0).
 Proof.
-  intro H. unfold after_drop.
-  pose proof (counts_after_call b1 b2 s L0 y H) as C.
+  intro H. unfold after_drop_gen.
+  pose proof (counts_after_call_gen leaky b1 b2 s L0 y H) as C.
   destruct (sc_ok s) eqn:Hok.
-  - pose proof (holders_after_success b1 b2 s L0 H Hok) as F.
-    destruct (after_call b1 b2 s L0) as [held L]. cbn [fst snd] in *. subst held.
+  - pose proof (holders_after_success_gen leaky b1 b2 s L0 H Hok) as F.
+    destruct (after_call_gen leaky b1 b2 s L0) as [held L]. cbn [fst snd] in *. subst held.
     rewrite !bump_all_at, C. lia.
-  - pose proof (failed_call_adopts_nothing b1 b2 s L0 Hok) as F.
-    destruct (after_call b1 b2 s L0) as [held L]. cbn [fst snd] in *. subst held.
+  - pose proof (failed_call_adopts_nothing_gen leaky b1 b2 s L0 Hok) as F.
+    destruct (after_call_gen leaky b1 b2 s L0) as [held L]. cbn [fst snd] in *. subst held.
     rewrite !bump_all_at, C. lia.
 Qed.
 
@@ -171,15 +178,23 @@ Proof.
   destruct h; [|reflexivity]. apply Bool.negb_true_iff in H1. now rewrite H1.
 Qed.
 
-Theorem balanced_after_drop b1 b2 s L0 y :
-  holders_only_cpp b1 s = true -> no_alias s = true -> after_drop b1 b2 s L0 y = L0 y.
+(* balanced whenever no holder already owns the object returned into it, whatever consume does *)
+Theorem balanced_after_drop_gen leaky b1 b2 s L0 y :
+  holders_only_cpp b1 s = true -> no_alias s = true -> after_drop_gen leaky b1 b2 s L0 y = L0 y.
 Proof.
-  intros H NA. rewrite ledger_after_drop by exact H.
-  rewrite (mult_all_none y _ (no_alias_aliased s NA)). destruct (sc_ok s); lia.
+  intros H NA. rewrite ledger_after_drop_gen by exact H. unfold leaked.
+  destruct leaky; [rewrite (mult_all_none y _ (no_alias_aliased s NA))|cbn [mult]]; destruct (sc_ok s); lia.
 Qed.
 
-(* the leak: a C++ proxy that already owns the returned object *)
+(* balanced for every scenario when consume gives the duplicate back *)
+Theorem balanced_unconditionally b1 b2 s L0 y :
+  holders_only_cpp b1 s = true -> after_drop_gen false b1 b2 s L0 y = L0 y.
+Proof. intro H. rewrite ledger_after_drop_gen by exact H. cbn [leaked mult]. destruct (sc_ok s); lia. Qed.
+
+(* the leak of the pinned ProxyBase::consume: a C++ proxy that already owns the returned object *)
 Definition alias_witness : scenario :=
   {| sc_ins := [Some 1%N]; sc_outs := [(Some 1%N, Some 1%N)]; sc_ok := true |}.
-Lemma alias_witness_leaks : after_drop BCpp BCpp alias_witness (fun _ => 0) 1%N = 1.
+Lemma alias_witness_leaks : after_drop_gen true BCpp BCpp alias_witness (fun _ => 0) 1%N = 1.
+Proof. vm_compute. reflexivity. Qed.
+Lemma alias_witness_balanced_when_repaired : after_drop_gen false BCpp BCpp alias_witness (fun _ => 0) 1%N = 0.
 Proof. vm_compute. reflexivity. Qed.
